@@ -256,4 +256,119 @@ map as the list of regions in index order. -/
 def canonIndex {R} [BEq R] (all : List R) (r : R) : List R × Nat :=
   if all.contains r then (all, all.idxOf r) else (all ++ [r], all.length)
 
+/-! ### serialisation of the store: `FontWrite for ItemVariationStore / VariationRegionList /
+ItemVariationData` (write-fonts/generated/generated_variations.rs; field programs
+`variations_ItemVariationStore_w`, `variations_VariationRegionList_w`, `variations_ItemVariationData_w`
+of Gen/WriteProgs.lean) and the reader's view of the bytes (read-fonts generated `FontRead`s,
+offsets resolved from the start of the store).  Where the packer puts the child tables (and which
+identical ones it shares) is a parameter: `placed` lists the distinct child byte strings in file
+order. -/
+
+def be2n (v : Nat) : List Nat := [v / 256 % 256, v % 256]
+def be4n (v : Nat) : List Nat := [v / 16777216 % 256, v / 65536 % 256, v / 256 % 256, v % 256]
+
+/-- one `ItemVariationData` table: item_count, word_delta_count, region_index_count, region
+indexes, delta sets. -/
+def ivdBytes (st : Tent.SubTable) : List Nat :=
+  be2n st.itemCount ++ be2n st.wordDeltaCount ++ be2n st.regionIndexes.length ++
+    st.regionIndexes.flatMap be2n ++ st.data
+
+def axisBytes (a : Int × Int × Int) : List Nat := be2 a.1 ++ be2 a.2.1 ++ be2 a.2.2
+
+/-- `VariationRegionList`: axis_count, region_count, `region_count × axis_count` records. -/
+def regionListBytes (axisCount : Nat) (regions : List (List (Int × Int × Int))) : List Nat :=
+  be2n axisCount ++ be2n regions.length ++ regions.flatMap (fun r => r.flatMap axisBytes)
+
+/-- position of a child object: header length plus the lengths of the objects placed before it. -/
+def offsetIn (hdr : Nat) (placed : List (List Nat)) (obj : List Nat) : Nat :=
+  hdr + ((placed.take (placed.idxOf obj)).map List.length).sum
+
+/-- the compiled `ItemVariationStore`: format 1, offset of the region list, count, one `Offset32`
+per subtable (0 = NULL), then the child objects. -/
+def storeBytes (axisCount : Nat) (regions : List (List (Int × Int × Int)))
+    (subs : List (Option Tent.SubTable)) (placed : List (List Nat)) : List Nat :=
+  let hdr := 8 + 4 * subs.length
+  be2n 1 ++ be4n (offsetIn hdr placed (regionListBytes axisCount regions)) ++ be2n subs.length ++
+    subs.flatMap (fun st => match st with
+      | none => be4n 0
+      | some st => be4n (offsetIn hdr placed (ivdBytes st))) ++
+    placed.flatten
+
+/-- the child objects of a store in header order: region list, then the non-NULL subtables. -/
+def childObjects (axisCount : Nat) (regions : List (List (Int × Int × Int)))
+    (subs : List (Option Tent.SubTable)) : List (List Nat) :=
+  regionListBytes axisCount regions :: subs.filterMap (fun st => st.map ivdBytes)
+
+/-! reader side -/
+
+def rdU16 (bs : List Nat) (off : Nat) : Option Nat :=
+  if off + 2 ≤ bs.length then some (beValue ((bs.drop off).take 2)) else none
+def rdU32 (bs : List Nat) (off : Nat) : Option Nat :=
+  if off + 4 ≤ bs.length then some (beValue ((bs.drop off).take 4)) else none
+def rdI16 (bs : List Nat) (off : Nat) : Option Int :=
+  (rdU16 bs off).map fun u => if u < 32768 then (u : Int) else (u : Int) - 65536
+
+/-- `n` region-axis records starting at `off`. -/
+def rdAxes (bs : List Nat) : Nat → Nat → Option (List (Int × Int × Int))
+  | 0, _ => some []
+  | n + 1, off =>
+    match rdI16 bs off, rdI16 bs (off + 2), rdI16 bs (off + 4), rdAxes bs n (off + 6) with
+    | some a, some b, some c, some rest => some ((a, b, c) :: rest)
+    | _, _, _, _ => none
+
+def rdRegions (bs : List Nat) (axisCount : Nat) : Nat → Nat → Option (List (List (Int × Int × Int)))
+  | 0, _ => some []
+  | n + 1, off =>
+    match rdAxes bs axisCount off, rdRegions bs axisCount n (off + 6 * axisCount) with
+    | some r, some rest => some (r :: rest)
+    | _, _ => none
+
+def rdU16s (bs : List Nat) : Nat → Nat → Option (List Nat)
+  | 0, _ => some []
+  | n + 1, off =>
+    match rdU16 bs off, rdU16s bs n (off + 2) with
+    | some v, some rest => some (v :: rest)
+    | _, _ => none
+
+/-- `ItemVariationData::read` at `off`, in the representation of `Tent.SubTable` (`data` = all
+bytes after the region indexes). -/
+def rdSub (bs : List Nat) (off : Nat) : Option Tent.SubTable :=
+  match rdU16 bs off, rdU16 bs (off + 2), rdU16 bs (off + 4) with
+  | some ic, some wdc, some rc =>
+    match rdU16s bs rc (off + 6) with
+    | some ris => some { itemCount := ic, wordDeltaCount := wdc, regionIndexes := ris,
+                         data := bs.drop (off + 6 + 2 * rc) }
+    | none => none
+  | _, _, _ => none
+
+def rdSubs (bs : List Nat) : Nat → Nat → Option (List (Option Tent.SubTable))
+  | 0, _ => some []
+  | n + 1, off =>
+    match rdU32 bs off with
+    | none => none
+    | some 0 => (rdSubs bs n (off + 4)).map (none :: ·)
+    | some o =>
+      match rdSub bs o, rdSubs bs n (off + 4) with
+      | some st, some rest => some (some st :: rest)
+      | _, _ => none
+
+/-- the reader's view of a compiled store: `(axis_count, regions, subtables)`; `none` = some
+table fails to read. -/
+def parseStore (bs : List Nat) :
+    Option (Nat × List (List (Int × Int × Int)) × List (Option Tent.SubTable)) :=
+  match rdU32 bs 2, rdU16 bs 6 with
+  | some rlOff, some cnt =>
+    match rdU16 bs rlOff, rdU16 bs (rlOff + 2) with
+    | some ac, some rcnt =>
+      match rdRegions bs ac rcnt (rlOff + 4), rdSubs bs cnt 8 with
+      | some regions, some subs => some (ac, regions, subs)
+      | _, _ => none
+    | _, _ => none
+  | _, _ => none
+
+/-- `build()` for `new_with_implicit_indices` including the item limit: more than 0xFFFF delta sets
+trip `debug_assert!(.. <= u16::MAX ..)` / `assert!(self.deltas.len() <= 0xffff)` (`none` = panic). -/
+def buildDirectChecked (n : Nat) (sets : List (List (Nat × Int))) : Option Built :=
+  if sets.length > 65535 then none else some (buildDirect n sets)
+
 end FontVerif.Ivs
